@@ -1,33 +1,45 @@
-"""developer driver: verify one function and print its obligations"""
-import sys, time
+"""developer driver: verify one function and print its obligations (parallel discharge)"""
+import sys, time, collections
 sys.path.insert(0, '/verif')
+import multiprocessing as mp
 from contracts import build_world
 from pyvc.spec import Verifier
 from pyvc import smt
+from framework.report import base_name
+
+def solve(job):
+    name, txt, to = job
+    r = smt.discharge(txt, timeout=to)
+    r['name'] = name
+    return r
 
 def main():
     key = sys.argv[1]
-    only = [a[2:] for a in sys.argv[2:] if a.startswith('--only=')]
+    only = [a[7:] for a in sys.argv[2:] if a.startswith('--only=')]
+    to = float(([a[5:] for a in sys.argv[2:] if a.startswith('--to=')] or ['5'])[0])
     w = build_world()
     v = Verifier(w)
     t0 = time.time()
     res = v.verify(key)
     print('status', res.status, res.reason, 'paths', res.paths, 'vcs', len(res.vcs), 'gen %.2fs' % (time.time() - t0))
     ax = v.global_axioms()
-    bad = 0
+    jobs = []
     for vc in res.vcs:
-        if only and not any(o in vc.name for o in only[0:]) and not any(vc.name.endswith(o.split('=')[-1]) for o in only):
+        if only and not any(o in vc.name for o in only):
             continue
-        txt = smt.vc_to_smt2(vc, ax)
-        r = smt.discharge(txt, timeout=10)
-        if r['status'] != 'unsat' or '-a' in sys.argv:
-            print('%-8s %-10s %6.2fs  %s %s' % (r['status'], r['solver'], r['seconds'], vc.name.split(':',1)[1], vc.info.get('line','')))
+        jobs.append((vc.name, smt.vc_to_smt2(vc, ax), to))
+    with mp.get_context('fork').Pool(16) as pool:
+        rs = pool.map(solve, jobs, chunksize=1)
+    bad = collections.OrderedDict()
+    for r in rs:
         if r['status'] != 'unsat':
-            bad += 1
-            if '-v' in sys.argv:
-                print(txt)
-    print('not discharged:', bad, 'of', len(res.vcs))
-    for n in res.notes:
-        print('note:', n)
+            b = base_name(r['name']).split(':', 1)[1]
+            bad.setdefault((b, r['status']), []).append(r['name'].split('@')[-1])
+    for (b, s), ps in bad.items():
+        print('%-8s %s   [%s]' % (s, b, ' '.join(ps[:8])))
+    print('not discharged:', sum(len(p) for p in bad.values()), 'of', len(jobs))
+    for n in sorted(set(res.notes)):
+        if '-n' in sys.argv:
+            print('note:', n)
 
 main()
